@@ -126,7 +126,7 @@ def literals(sh, tname, targs, quick):
         for p in ph[:: (3 if quick else 1)]:
             lits.append(t + p)
             lits.append(p + t)
-    step = 7 if quick else 2
+    step = 7 if quick else 3
     if tname != "star":
         for i, p in enumerate(ph):
             for q in ph[(i % step):: step]:
@@ -337,7 +337,7 @@ def run(chk, tier):
             for k in range(0, len(entries), per_enum):
                 cases.append(case_for("c%d" % len(cases), derive, sh, entries[k:k + per_enum]))
             # struct path (incl. `self` in arguments), a slice of the same literals
-            for (l, tname, targs) in entries[:: (37 if quick else 9)]:
+            for (l, tname, targs) in entries[:: (37 if quick else 131)]:
                 cases.append(struct_case("c%d" % len(cases), derive, sh, l, tname, targs, use_self=False))
                 if sh.n >= 1 and tname in ("none", "idents") and "{}" not in l and "{:" not in l and not any(c.isdigit() for c in l.replace("_0", "").replace("_1", "").replace("_2", "")):
                     pass
